@@ -166,6 +166,7 @@ def run(rep, tier):
                                      'G6-temp-unique'))
     for rid, txt in [
         ('LOCAL-shadow', 'locally bound names are emitted as locals, not as rules of the same name'),
+        ('LOCAL-let-scope', 'after a nested `let` of the same name has ended, the name denotes the outer value again'),
         ('ARG-captures', 'a compound template argument is handed exactly the local names it uses (free variables '
                          'of the skeleton object) at the place of the call'),
         ('FREEVAR-visible', 'every verbatim emission of description text is visible to the free-variable protocol'),
@@ -180,7 +181,8 @@ def run(rep, tier):
                                                      'G3-protocol', 'G6-temp-unique'))
     for K, want in {'Let': 18, 'Seq': 1300, 'Where': 18, 'Apply': 36}.items():
         rep.floor(f'configurations of {K}', total.get(K, 0), want)
-    found, stats, nmods = routes.run(rep, 'C05', ['LOCAL-shadow', 'C05-', 'C14-field-tables', 'ARG-captures'])
+    found, stats, nmods = routes.run(rep, 'C05', ['LOCAL-shadow', 'LOCAL-let-scope', 'C05-', 'C14-field-tables',
+                                                   'ARG-captures'])
     rep.floor('generated classes examined', stats['classes'], 12)
     freevar_protocol(rep)
     reference_pass_order(rep)
